@@ -43,9 +43,13 @@ def entropy_of(fn, sem, var, depth=0):
             args = [x for x in i.c if x is not None and x.k != 'defarg']
         else:
             args = [i]
+    if 'random_generator_pure' in ty:
+        return 'unique', '%s draws every id from operating-system entropy (stateless)' % var.get('name')
     if 'basic_random_generator' in ty or re.search(r'uuids::random_generator', ty):
         if not args:
-            return 'unique', '%s default-constructed: seeds itself from operating-system entropy' % var.get('name')
+            if var.get('static') or True:
+                return 'shared', ('%s is a pseudo-random generator seeded once: its in-process state is duplicated by fork(), so parent and child '
+                                  '(or two children) generate the same id sequence' % var.get('name'))
         # constructed over an engine: &ran / ran
         a = unwrap(args[0])
         while a is not None and a.k == 'unop' and a.get('op') == '&':
@@ -79,7 +83,8 @@ def entropy_of(fn, sem, var, depth=0):
                                 uniq += u2
                                 shared += s2
         if uniq:
-            return 'unique', 'engine %s seeded from %s' % (var.get('name'), ', '.join(uniq))
+            return 'shared', ('engine %s is seeded from %s but keeps in-process state that fork() duplicates: parent and child generate the same '
+                              'id sequence' % (var.get('name'), ', '.join(uniq)))
         return 'shared', 'engine %s is seeded only from %s: two processes started in the same second generate the same id sequence' % (
             var.get('name'), ', '.join(shared) if shared else 'constants')
     raise AnalysisBroken('R-SEED: unrecognised generator type %s for %s at %s' % (ty, var.get('name'), var.loc()))
